@@ -353,6 +353,8 @@ func checkC07(e *Engine, r *Report) {
 	checkLibmemFit(e, r, c, ensure, defOC, checkOC, zoneFree, zoneCap, zoneUsage)
 	checkFinalZoneReturned(e, r, c, pubAlloc)
 	checkExpansionTypePurity(e, r)
+	checkLibmemStrictNormalMemory(e, r, c)
+	checkLibmemOfferCommit(e, r, c)
 
 	for p, n := range map[string]int{"R6:shrink-": 2, "R5:monotone@": 2, "R5:commit-replays-offer": 1,
 		"R1:updates-passthrough@": 2, "R1:allocate-success-is-fit": 1, "R1:fit-checks-new-zone@": 1, "R1:normal-memory-guard": 2,
@@ -681,17 +683,6 @@ func checkLibmemFit(e *Engine, r *Report, c *lmCtx, ensure, defOC, checkOC, zone
 	}
 	// checkOvercommit flags zones with zoneFree < 0; zoneFree = capacity - usage; usage sums all sub-zones
 	{
-		okFlag := false
-		AllInstrs(checkOC, func(in ssa.Instruction) {
-			if ifi, ok := in.(*ssa.If); ok {
-				if b, ok := ifi.Cond.(*ssa.BinOp); ok && b.Op == token.LSS && isConstInt(b.Y, 0) {
-					if call, ok := b.X.(*ssa.Call); ok && e.IsCallTo(call, fset(zoneFree)) {
-						okFlag = true
-					}
-				}
-			}
-		})
-		r.Check("R1:overcommit-iff-negative-free", "R1 fit+normal-memory", "checkOvercommit flags a zone when zoneFree(zone) < 0", e.Pos(checkOC.Pos()), checkOC, okFlag, "", true)
 		okSub := false
 		for _, ret := range Returns(zoneFree) {
 			if b, ok := ret.Results[0].(*ssa.BinOp); ok && b.Op == token.SUB {
@@ -704,26 +695,7 @@ func checkLibmemFit(e *Engine, r *Report, c *lmCtx, ensure, defOC, checkOC, zone
 			}
 		}
 		r.Check("R1:free=capacity-usage", "R1 fit+normal-memory", "zoneFree(z) = zoneCapacity(z) - zoneUsage(z)", e.Pos(zoneFree.Pos()), zoneFree, okSub, "", true)
-		okSubset := false
-		if zoneUsage != nil {
-			AllInstrs(zoneUsage, func(in ssa.Instruction) {
-				if ifi, ok := in.(*ssa.If); ok {
-					if b, ok := ifi.Cond.(*ssa.BinOp); ok && b.Op == token.EQL {
-						if and, ok := b.X.(*ssa.BinOp); ok && and.Op == token.AND && (paramIndex(and.X) == 1 || paramIndex(and.Y) == 1) {
-							other := and.Y
-							if paramIndex(and.Y) == 1 {
-								other = and.X
-							}
-							if b.Y == other {
-								okSubset = true
-							}
-						}
-					}
-				}
-			})
-			r.Check("R1:usage-sums-subzones", "R1 fit+normal-memory", "zoneUsage(zone) counts every zone whose nodes are a subset: (zone & nodes) == nodes",
-				e.Pos(zoneUsage.Pos()), zoneUsage, okSubset, "", true)
-		}
+		checkLibmemOvercommitDetection(e, r, c)
 	}
 
 }
